@@ -304,6 +304,11 @@ func sliceItemType(
 			foundType = types[i]
 		} else if foundType.TypeID() != types[i].TypeID() {
 			return nil, fmt.Errorf("mismatching types in list (expected: %s, found: %s)", foundType.TypeID(), types[i].TypeID())
+		} else if err := foundType.ValidateCompatibility(types[i]); err != nil {
+			// The first item determines the item type of the list. Data of a later item that is
+			// not compatible with it (e.g. an object with other properties) could never be
+			// validated against the inferred schema.
+			return nil, fmt.Errorf("mismatching types in list (item %d is not compatible with item 0: %w)", i, err)
 		}
 	}
 	if foundType == nil {
